@@ -97,19 +97,19 @@ PathString(t, base) == IF IsAbs(t) THEN t ELSE Join(base, t)
 (*    L[star star p] = Char^n L[p]   for any n >= 0                         *)
 (* A run of three or more stars denotes Char^n under every way of reading.  *)
 (***************************************************************************)
-NoSep(r, k) == \A n \in 1..k : r[n] # Sep
-Drop(r, k)  == SubSeq(r, k + 1, Len(r))
+\* InLangAt(p, r, i, j): the rest of r from position j is in the language of the rest of p from position i
+RECURSIVE InLangAt(_, _, _, _)
+InLangAt(p, r, i, j) ==
+  IF i > Len(p) THEN j > Len(r)
+  ELSE IF p[i] = "*" THEN
+         IF i < Len(p) /\ p[i + 1] = "*"
+         THEN \E k \in j..(Len(r) + 1) : InLangAt(p, r, i + 2, k)
+         ELSE \E k \in j..(Len(r) + 1) : (\A n \in j..(k - 1) : r[n] # Sep) /\ InLangAt(p, r, i + 1, k)
+  ELSE IF j > Len(r) THEN FALSE
+  ELSE IF p[i] = "?" THEN r[j] # Sep /\ InLangAt(p, r, i + 1, j + 1)
+  ELSE p[i] = r[j] /\ InLangAt(p, r, i + 1, j + 1)
 
-RECURSIVE InLang(_, _)
-InLang(p, r) ==
-  IF p = <<>> THEN r = <<>>
-  ELSE IF p[1] = "*" THEN
-         IF Len(p) >= 2 /\ p[2] = "*"
-         THEN \E k \in 0..Len(r) : InLang(Drop(p, 2), Drop(r, k))
-         ELSE \E k \in 0..Len(r) : NoSep(r, k) /\ InLang(Tail(p), Drop(r, k))
-  ELSE IF r = <<>> THEN FALSE
-  ELSE IF p[1] = "?" THEN r[1] # Sep /\ InLang(Tail(p), Tail(r))
-  ELSE p[1] = r[1] /\ InLang(Tail(p), Tail(r))
+InLang(p, r) == InLangAt(p, r, 1, 1)
 
 (***************************************************************************)
 (* Where a match may lie in the canonical path t.                           *)
@@ -132,10 +132,11 @@ StartOK(t, i, real, lax) ==
   ELSE \/ (i > 1 /\ t[i - 1] = Sep)
        \/ (i = 1 /\ (lax \/ ~IsAbs(t)))
 
-MatchIn(pc, t, real, lax) ==
-  \E i \in 1..(Len(t) + 1) :
-     /\ StartOK(t, i, real, lax)
-     /\ \E j \in (i - 1)..Len(t) : EndOK(t, j, lax) /\ InLang(pc, SubSeq(t, i, j))
+\* the parts of t in which a match may lie
+Regions(t, real, lax) ==
+  {SubSeq(t, x[1], x[2]) :
+     x \in {y \in (1..(Len(t) + 1)) \X (0..Len(t)) :
+              y[2] >= y[1] - 1 /\ StartOK(t, y[1], real, lax) /\ EndOK(t, y[2], lax)}}
 
 (***************************************************************************)
 (* Trailing separator: "the final path component of the pattern only        *)
@@ -172,20 +173,27 @@ PathInfo(t, base) ==
   LET ts == PathString(t, base) IN
   [tc |-> Canon(ts), undoc |-> Loose(ts)]
 
-MustI(pi, ti, mode) ==
-  IF pi.trail /\ mode = "reg" THEN MatchIn(pi.pc, DirOf(ti.tc), pi.real, FALSE)
-  ELSE MatchIn(pi.pc, ti.tc, pi.real, FALSE)
+\* The verdict, given the regions Rg(t, real, lax) of a path string and the language membership In(pc, r)
+\* (PathMatchMC passes tabulated versions of Regions and InLang; the definition is this one).
+VerdictWith(Rg(_, _, _), In(_, _), pi, ti, mode) ==
+  LET shortened == pi.trail /\ mode = "reg"     \* the final component of the path is out of reach
+      must == IF shortened THEN Rg(DirOf(ti.tc), pi.real, FALSE) ELSE Rg(ti.tc, pi.real, FALSE)
+      may  == IF shortened THEN Rg(DirOf(ti.tc), pi.real, TRUE) \cup Rg(DirOfSep(ti.tc), pi.real, TRUE)
+              ELSE Rg(ti.tc, pi.real, TRUE)
+  IN IF pi.undoc \/ ti.undoc THEN "Open"
+     ELSE IF \E r \in must : In(pi.pc, r) THEN "T"
+     ELSE IF \E r \in may : In(pi.pc, r) THEN "Open"
+     ELSE "F"
 
+VerdictI(pi, ti, mode) == VerdictWith(Regions, InLang, pi, ti, mode)
+
+\* the two bounds of the verdict separately, without the domain restriction (used by the laws)
+MustI(pi, ti, mode) ==
+  \E r \in Regions(IF pi.trail /\ mode = "reg" THEN DirOf(ti.tc) ELSE ti.tc, pi.real, FALSE) : InLang(pi.pc, r)
 MayI(pi, ti, mode) ==
   IF pi.trail /\ mode = "reg"
-  THEN MatchIn(pi.pc, DirOf(ti.tc), pi.real, TRUE) \/ MatchIn(pi.pc, DirOfSep(ti.tc), pi.real, TRUE)
-  ELSE MatchIn(pi.pc, ti.tc, pi.real, TRUE)
-
-VerdictI(pi, ti, mode) ==
-  IF pi.undoc \/ ti.undoc THEN "Open"
-  ELSE IF MustI(pi, ti, mode) THEN "T"
-  ELSE IF MayI(pi, ti, mode) THEN "Open"
-  ELSE "F"
+  THEN \E r \in Regions(DirOf(ti.tc), pi.real, TRUE) \cup Regions(DirOfSep(ti.tc), pi.real, TRUE) : InLang(pi.pc, r)
+  ELSE \E r \in Regions(ti.tc, pi.real, TRUE) : InLang(pi.pc, r)
 
 Must(p, t, base, mode)    == MustI(PatInfo(p, base), PathInfo(t, base), mode)
 May(p, t, base, mode)     == MayI(PatInfo(p, base), PathInfo(t, base), mode)
@@ -197,10 +205,10 @@ RootPattern(p, base)      == PatInfo(p, base).pc = <<Sep>>
 (* Laws of the definition (checked by TLC in PathMatchMC for all strings up *)
 (* to a bound); they guard against a wrong specification.                   *)
 (***************************************************************************)
-RECURSIVE Strings(_, _)
+RECURSIVE StringsOfLen(_, _)
+StringsOfLen(A, n) == IF n = 0 THEN {<<>>} ELSE {Append(s, c) : s \in StringsOfLen(A, n - 1), c \in A}
 \* all strings over alphabet A of length <= n
-Strings(A, n) == IF n = 0 THEN {<<>>}
-                 ELSE LET S == Strings(A, n - 1) IN S \cup {Append(s, c) : s \in {x \in S : Len(x) = n - 1}, c \in A}
+Strings(A, n) == UNION {StringsOfLen(A, k) : k \in 0..n}
 
 \* positions at which a component starts (1, and directly after a separator)
 CompStarts(s) == {i \in 1..(Len(s) + 1) : i = 1 \/ s[i - 1] = Sep}
@@ -216,19 +224,20 @@ Respellings(s) ==
     \cup (IF s = <<>> THEN {} ELSE {s \o <<Sep>>, s \o <<Sep, ".">>})
 
 \* L1 canonical forms are normal forms, canonicalisation is idempotent and blind to re-spelling
-LawCanon(S) ==
-  \A s \in S :
+LawCanon(s) ==
     /\ Canon(Canon(s)) = Canon(s)
     /\ IsAbs(Canon(s)) = IsAbs(s)
-    /\ \A c \in {CanonComps(s)[k] : k \in DOMAIN CanonComps(s)} : c # <<>> /\ c # Dot /\ (c = DotDot => Loose(s))
+    /\ \A c \in ToSet(CanonComps(s)) : c # <<>> /\ c # Dot /\ (c = DotDot => Loose(s))
     /\ (Len(Canon(s)) > 1 => Last(Canon(s)) # Sep)
     /\ \A k \in 1..(Len(Canon(s)) - 1) : ~(Canon(s)[k] = Sep /\ Canon(s)[k + 1] = Sep)
     /\ \A r \in Respellings(s) : Canon(r) = Canon(s)
 
+Modes == {"reg", "dir"}
+
 \* L2 the verdict does not depend on how the path or the pattern is spelled (a trailing separator of the
 \*    pattern and its class are significant, so re-spellings that change them are not required to be neutral)
-LawRespell(P, T, B) ==
-  \A p \in P, t \in T, base \in B, mode \in {"reg", "dir"} :
+LawRespell(p, t, base) ==
+  \A mode \in Modes :
     /\ \A t2 \in Respellings(t) : IsAbs(t2) = IsAbs(t) => Verdict(p, t2, base, mode) = Verdict(p, t, base, mode)
     /\ \A p2 \in Respellings(p) :
          (IsAbs(p2) = IsAbs(p) /\ IsRelPattern(p2) = IsRelPattern(p) /\ Trailing(p2) = Trailing(p))
@@ -237,16 +246,14 @@ LawRespell(P, T, B) ==
 \* L3 widening a wildcard never loses a match: '?' -> '*', '*' -> '**'
 Widen(p) == {SubSeq(p, 1, i - 1) \o <<"*">> \o SubSeq(p, i + 1, Len(p)) : i \in {k \in DOMAIN p : p[k] = "?"}}
               \cup {Insert(p, i, <<"*">>) : i \in {k \in DOMAIN p : p[k] = "*"}}
-LawWiden(P, T, B) ==
-  \A p \in P, t \in T, base \in B, mode \in {"reg", "dir"} :
-    Must(p, t, base, mode) => \A q \in Widen(p) : Must(q, t, base, mode)
+LawWiden(p, t, base) ==
+  \A mode \in Modes : Must(p, t, base, mode) => \A q \in Widen(p) : Must(q, t, base, mode)
 
 \* L4 a pattern without wildcards is a comparison of canonical forms: absolute/relative = the pattern's
 \*    components are a prefix of the path's, free = they occur in it as a contiguous run
 IsLiteral(p) == \A k \in DOMAIN p : p[k] \notin {"*", "?"}
 RunAt(pc, tc, k) == Len(tc) >= k + Len(pc) /\ SubSeq(tc, k + 1, k + Len(pc)) = pc
-LawLiteral(P, T, B) ==
-  \A p \in P, t \in T, base \in B :
+LawLiteral(p, t, base) ==
     (IsLiteral(p) /\ ~Trailing(p) /\ ~Undocumented(p, t, base) /\ ~RootPattern(p, base)
        /\ IsAbs(PathString(t, base))) =>
       LET pc == CanonComps(PatString(p, base))
@@ -257,11 +264,14 @@ LawLiteral(P, T, B) ==
 
 \* L5 a pattern that matches a directory matches everything below it (this is what lets the file lister
 \*    prune ignored directories); mode matters only for patterns with a trailing separator; Must => May
-LawBelow(P, T, B) ==
-  \A p \in P, t \in T, base \in B :
+LawBelow(p, t, base) ==
     /\ (t # <<>> /\ Last(t) # Sep /\ ~RootPattern(p, base) /\ ~Undocumented(p, t, base) /\ Must(p, t, base, "dir")) =>
-          \A mode \in {"reg", "dir"} : Must(p, t \o <<Sep, "x">>, base, mode)
+          \A mode \in Modes : Must(p, t \o <<Sep, "x">>, base, mode)
     /\ ~Trailing(p) => Verdict(p, t, base, "reg") = Verdict(p, t, base, "dir")
-    /\ Must(p, t, base, "reg") => May(p, t, base, "dir")
-    /\ \A mode \in {"reg", "dir"} : Must(p, t, base, mode) => May(p, t, base, mode)
+    /\ (~Undocumented(p, t, base) /\ Must(p, t, base, "reg")) => May(p, t, base, "dir")
+    /\ \A mode \in Modes : Must(p, t, base, mode) => May(p, t, base, mode)
+
+\* the counterexamples of a law over a domain
+Refuting1(L(_), S) == {s \in S : ~L(s)}
+Refuting3(L(_, _, _), P, T, B) == {x \in P \X T \X B : ~L(x[1], x[2], x[3])}
 =============================================================================
